@@ -352,6 +352,11 @@ func (c *checker) checkWord(d *def, l *Lit, pos token.Pos, want func(types.Basic
 	} else {
 		c.out.fail("value", c.pos(l.Pos), d.name, fmt.Sprintf("is %#x but the definition (%s) is %#x", l.Int, d.doc, w))
 	}
+	if strings.HasSuffix(d.name, ".constLFACTOR") {
+		// -1/L mod 2^29 is the 52-bit value reduced mod 2^29
+		low := new(big.Int).Mod(l.Int, pow2(29))
+		c.recordCross(d.name, types.TypeString(l.Type, nil), low.String(), fmt.Sprintf("%#x", l.Int), l.Pos)
+	}
 }
 
 // affineOf converts an extended-coordinates literal to an affine point and
